@@ -170,6 +170,11 @@ class SCCReader(BaseReader):
     """
 
     def __init__(self, *args, **kw):
+        self._reset()
+
+    def _reset(self):
+        """(Re)creates the per-document state, so that a reader object can be
+        used for more than one document"""
         self.caption_stash = CaptionCreator()
         self.time_translator = _SccTimeTranslator()
 
@@ -233,6 +238,7 @@ class SCCReader(BaseReader):
         if not isinstance(content, str):
             raise InvalidInputError("The content is not a unicode string.")
 
+        self._reset()
         self.simulate_roll_up = simulate_roll_up
         self.time_translator.offset = offset * 1000000
         # split lines
